@@ -42,6 +42,9 @@ type Loader struct {
 	rootLocation string
 
 	visitedPathItemRefs map[string]struct{}
+	// path items the loader already went through: one reached again (through a callback of its
+	// own operations) is not resolved twice
+	visitedPathItems map[*PathItem]struct{}
 
 	visitedDocuments map[string]*T
 
@@ -59,6 +62,7 @@ func NewLoader() *Loader {
 
 func (loader *Loader) resetVisitedPathItemRefs() {
 	loader.visitedPathItemRefs = make(map[string]struct{})
+	loader.visitedPathItems = make(map[*PathItem]struct{})
 	loader.visitedRefs = make(map[string]struct{})
 	loader.visitedPath = nil
 	loader.backtrack = make(map[string][]func(value any) error)
@@ -1263,9 +1267,13 @@ func (loader *Loader) resolvePathItemRef(doc *T, pathItem *PathItem, documentPat
 	}
 
 	if ref := pathItem.Ref; ref != "" {
-		if !pathItem.isEmpty() {
+		if _, ok := loader.visitedPathItems[pathItem]; ok {
 			return
 		}
+		loader.visitedPathItems[pathItem] = struct{}{}
+	}
+	// fields beside "$ref" win over the reference: it is not followed, what they hold is resolved
+	if ref := pathItem.Ref; ref != "" && pathItem.isEmpty() {
 		if !loader.shouldVisitRef(ref, func(value any) error {
 			v, ok := value.(*PathItem)
 			if !ok {
